@@ -89,6 +89,15 @@ let handle (w : string list) : string =
     (match create (bytes_of_hex h) with
      | Ok hl -> print_result (deranged_string hl.ranges (fill (int_of_string n) []))
      | _ -> "ERR")
+  | ["rtext"; h] ->
+    (* the pure text of Hostlist/HLRangedFit.v (theorem ranged_fit: what the printer lays down whenever it fits) *)
+    (match create (bytes_of_hex h) with
+     | Ok hl -> let t = ranged_text hl.ranges in string_of_int (List.length t) ^ " " ^ hex_of_bytes t
+     | _ -> "ERR")
+  | ["gtexts"; h] ->
+    (match create (bytes_of_hex h) with
+     | Ok hl -> "OK" ^ String.concat "" (List.map (fun t -> " " ^ hex_of_bytes t) (gtexts (S (length hl.ranges)) hl.ranges))
+     | _ -> "ERR")
   | ["targets"; h] -> out_names (targets (bytes_of_hex h))
   | ["targets1"; h] -> out_names (targets1 (bytes_of_hex h))
   | _ -> "MODEL-BADCASE"
